@@ -443,7 +443,8 @@ def c17_post(res, tier, seed, bdir, rdir):
                 open(os.path.join(corpus, 's%d' % i), 'wb').write(sd)
         art = os.path.join(bdir, 'fuzz_art_%d_' % n)
         env = dict(os.environ, ASAN_OPTIONS='detect_leaks=0:allocator_may_return_null=1', UBSAN_OPTIONS='print_stacktrace=1')
-        p = subprocess.run([exe, '-runs=%d' % runs, '-seed=%d' % (seed * 31 + n + 1), '-timeout=10', '-max_len=2048', '-rss_limit_mb=3000', '-print_final_stats=1',
+        nruns = runs // 10 if n == 4 else runs      # the INI target runs ~500 exec/s (classifier + parser), the others 10-100 k/s
+        p = subprocess.run([exe, '-runs=%d' % nruns, '-seed=%d' % (seed * 31 + n + 1), '-timeout=10', '-max_len=2048', '-rss_limit_mb=0', '-malloc_limit_mb=2000', '-print_final_stats=1',
                             '-artifact_prefix=' + art, corpus], stdout=subprocess.PIPE, stderr=subprocess.STDOUT, text=True, env=env, timeout=6000)
         return n, p, None
     with ThreadPoolExecutor(6) as ex:
